@@ -31,6 +31,7 @@ func runC01(c *core.Ctx) {
 	c.RuleDoc("R01.8", "a record is stored under a path only where that path was found absent or not a directory (os: rename of a file onto a directory fails) — the analysis of R03.5")
 	c.RuleDoc("R01.9", "the in-memory listing compares child names with constants only")
 	c.RuleDoc("R01.13", "Rename stores a directory under the new name only where the new name is absent")
+	c.RuleDoc("R01.16", "the OpenFile helper takes the fs.Open shortcut only for flag == O_RDONLY (= R08.8)")
 	c.RuleDoc("R01.15", "the whole-file write helper changes no attribute of the file it writes")
 	c.RuleDoc("R01.14", "a by-name method returns a constant nil only after the name was looked up")
 	c.RuleDoc("R01.12", "times are compared with IsZero/Equal, never with == (a zero time in another zone means 'leave unchanged')")
@@ -61,6 +62,8 @@ func runC01(c *core.Ctx) {
 		r01DirOntoAbsentOnly(c, p, sh)
 		r01SuccessAfterLookup(c, p, sh)
 		r01WriteKeepsAttributes(c, p)
+		// R01.16 (= R08.8): the OpenFile helper (what callers of mem reach) takes the fs.Open shortcut only for flag == O_RDONLY
+		c.WithAlias(map[string]string{"R08.8": "R01.16"}, func() { r08OpenFallback(c, p) })
 		if p.Target == load.Linux {
 			r05NotDirThroughFile(c, p, "R01.11")
 		}
@@ -79,6 +82,7 @@ func runC01(c *core.Ctx) {
 	c.Floor("R01.13", 1)
 	c.Floor("R01.14", 3)
 	c.Floor("R01.15", 1)
+	c.Floor("R01.16", 1)
 }
 
 type openSituation struct {
